@@ -780,3 +780,53 @@ def alarm_reflection_impure(src):
     k = ImpureFilter.partner()
     if k is not None:
         k().run(src)
+
+
+# ---- getattr with a name that has a constant prefix --------------------------------------------------------------------------
+class Backends:
+    @classmethod
+    def run(cls, which, x):
+        f = getattr(cls, f"_run_with_{which}")
+        f(x)
+
+    @classmethod
+    def _run_with_a(cls, x):
+        return x.width
+
+    @classmethod
+    def _run_with_b(cls, x):
+        return x.height
+
+    @classmethod
+    def other(cls, x):
+        x.width = 1
+
+
+def ok_getattr_prefix(src):
+    Backends.run(src.kind, src)
+
+
+class BackendsBad(Backends):
+    @classmethod
+    def _run_with_c(cls, x):
+        x.width = 1
+
+
+def alarm_getattr_prefix(src):
+    BackendsBad.run(src.kind, src)
+
+
+class Plain:
+    def setLeft(self, x):
+        x.width = 1
+
+    def getLeft(self, x):
+        return x.width
+
+
+def alarm_getattr_prefix_instance(src):
+    getattr(Plain(), "set" + src.side)(src)
+
+
+def ok_getattr_prefix_instance(src):
+    getattr(Plain(), "get" + src.side)(src)
